@@ -37,24 +37,22 @@ Definition dY2 (rows : list drow) (p : param -> D) : D :=
 Definition dNrow (rows : list drow) (cols : list param) (a : param) : list (param * D) := map (fun l => (l, dN rows a l)) cols.
 Definition dNC (Nrow : list (param * D)) (cov : param -> param -> D) (b : param) : D := dsum (map (fun lN => dmul (snd lN) (cov (fst lN) b)) Nrow).
 Definition dNCabs (Nrow : list (param * D)) (cov : param -> param -> D) (b : param) : D := dsum (map (fun lN => dabs (dmul (snd lN) (cov (fst lN) b))) Nrow).
-Definition ds2i (rows : list drow) (cols : list param) (cov : param -> param -> D) : D :=
-  match cols with a :: _ => dNC (dNrow rows cols a) cov a | [] => dzero end.
+(* p_cov = inv(X'WX) * s2 with s2 = SSR/(n-p):  (n-p) * N * Cov = SSR * I entry-wise, all exact, to 2^e relative to the absolute sums, plus
+   the floor 2^efloor * sum w (|x.p| + |y|)^2 below which a residual sum of squares is round-off of the observations (noise-free data)
+   and an absolute floor 2^-40 SSR for entries that are exactly zero in exact arithmetic.  (s2 is NOT read off an entry of N*Cov: with an
+   ill-conditioned N a single entry carries the round-off of the whole inverse.) *)
 Definition cov_ok (e efloor : Z) (rows : list drow) (p : param -> D) (cols : list param) (cov : param -> param -> D) : bool :=
   let dof := (Z.of_nat (length rows) - Z.of_nat (length cols), 0) : D in
   let ssr := dSSR rows p in
-  let s2i := ds2i rows cols cov in
+  let fl := dadd (dmul (dpow2 efloor) (dY2 rows p)) (dmul (dpow2 (-40)) ssr) in
   (0 <? fst dof) &&
   forallb (fun a =>
     let Nrow := dNrow rows cols a in
     forallb (fun b =>
-      let rhs := if param_eqb a b then s2i else dzero in
-      (* the last term is an absolute floor relative to the scale s2 of the identity: entries that are exactly zero in exact
-         arithmetic (e.g. between time steps that share no free unknown) come out of a float inverse as pure round-off *)
-      dle (dabs (dsub (dNC Nrow cov b) rhs)) (dadd (dmul (dpow2 e) (dadd (dNCabs Nrow cov b) (dabs rhs))) (dmul (dpow2 (-40)) (dabs s2i))))
+      let rhs := if param_eqb a b then ssr else dzero in
+      dle (dabs (dsub (dmul dof (dNC Nrow cov b)) rhs)) (dadd (dmul (dpow2 e) (dadd (dmul dof (dNCabs Nrow cov b)) (dabs rhs))) fl))
       cols)
-    cols &&
-  dle (dabs (dsub (dmul dof s2i) ssr))
-      (dadd (dmul (dpow2 e) (dadd (dabs (dmul dof s2i)) ssr)) (dmul (dpow2 efloor) (dY2 rows p))).
+    cols.
 
 (* parameter vector / covariance by name through a layout *)
 Definition by_layout (lay : param -> option Z) (v : list D) (a : param) : D :=
